@@ -278,7 +278,10 @@ def mix_entry_configs(tier):
     for recv, inlets in [('l', [('l', 'A'), ('g', 'B')]), ('l', [('SELF', 'A'), ('g', 'B')]), ('l', [('l', 'A'), ('l', 'B')]),
                          ('l', [('gl', 'A'), ('s', 'B')]), ('l', [('Eg', 'A'), ('l', 'B')]), ('g', [('SELF', 'A'), ('SELF', 'A')]),
                          ('gl', [('SELF', 'A'), ('s', 'B')]), ('gl', [('l', 'A'), ('L', 'B')]), ('l', [('l', 'B')]),
-                         ('l', [('SELF', 'A'), ('lL', 'A'), ('S', 'B')])]:
+                         ('l', [('SELF', 'A'), ('lL', 'A'), ('S', 'B')]),
+                         # receivers that hold material in both liquids (or both solids) and are themselves an inlet: the phase set is
+                         # rebuilt from the grouped phase label, the two rows fold into one (added after seeded change C01_8)
+                         ('lL', [('SELF', 'A'), ('g', 'A')]), ('lL', [('SELF', 'A'), ('l', 'B')])]:
         add('conserve_phases', recv, inlets)
     for recv, inlets in [('gl', [('gL', 'A')]), ('gl', [('gL', 'B'), ('l', 'A')]), ('gL', [('gl', 'B'), ('SELF', 'A')]), ('l', [('gL', 'B'), ('L', 'A')])]:
         add('plain', recv, inlets)
